@@ -66,6 +66,10 @@ struct DBusTransportSocket
   DBusString encoded_incoming;          /**< Encoded version of current
                                          *   incoming data.
                                          */
+  dbus_bool_t write_broken;             /**< Writing has failed with EPIPE:
+                                         *   nothing can be written to this
+                                         *   socket any more.
+                                         */
 };
 
 static void
@@ -135,7 +139,14 @@ check_write_watch (DBusTransport *transport)
   
   _dbus_transport_ref (transport);
 
-  if (_dbus_transport_try_to_authenticate (transport))
+  if (socket_transport->write_broken)
+    {
+      /* The peer no longer reads (see do_writing()). The socket would be
+       * reported as ready for writing for ever: do not wait for that, or
+       * the main loop spins for as long as the peer keeps its end open. */
+      needed = FALSE;
+    }
+  else if (_dbus_transport_try_to_authenticate (transport))
     needed = _dbus_connection_has_messages_to_send_unlocked (transport->connection);
   else
     {
@@ -666,7 +677,13 @@ do_writing (DBusTransport *transport)
            * http://lists.freedesktop.org/archives/dbus/2008-March/009526.html
            */
           
-          if (_dbus_get_is_errno_eagain_or_ewouldblock (saved_errno) || _dbus_get_is_errno_epipe (saved_errno))
+          if (_dbus_get_is_errno_epipe (saved_errno))
+            {
+              socket_transport->write_broken = TRUE;
+              goto out;
+            }
+
+          if (_dbus_get_is_errno_eagain_or_ewouldblock (saved_errno))
             goto out;
 
           /* Since Linux commit 25888e (from 2.6.37-rc4, Nov 2010), sendmsg()
